@@ -472,6 +472,17 @@ def delFabricKeys (hi : Nat) : Nat → Nat → KV → List KV → KV × List KV
       delFabricKeys hi (i + 1) fuel cur' (cur' :: acc)
     else delFabricKeys hi (i + 1) fuel cur acc
 
+/-- `FailSafe::is_adding_fabric` -/
+def addingFabric (n : Node) (idx : Nat) : Bool :=
+  match n.fs with
+  | some a => a.fab == idx && a.flags.addNoc
+  | none => false
+
+/-- the undo of the first write of a CommissioningComplete whose second write failed: the stored
+record of a fabric added under this fail-safe is removed again (a failure of that is only logged) -/
+def undoAdded (n : Node) (idx : Nat) : Node :=
+  if addingFabric n idx then (removeFabricKey n idx).1 else n
+
 /-- `NocHandler::handle_add_noc` (noc.rs:479) after the retry of a failed resumption-cache store -/
 def addNoc (cfg : Cfg) (n : Node) (sid : Nat) (mode : Mode) (ca fid node subj ser : Nat) : Node × Status :=
   match checkArmed n mode with
@@ -638,7 +649,8 @@ def sessOp (cfg : Cfg) (n : Node) (sid : Nat) (mode : Mode) : Op → Node × Sta
   | .complete _ =>
     -- gen_comm.rs:491: the fabric, then the networks are stored FIRST; only then the fail-safe is
     -- disarmed, the window closed and the PASE sessions dropped.  A failing store answers the error
-    -- with the fail-safe still armed.
+    -- with the fail-safe still armed; when it is the second one, the record of a fabric that was
+    -- added under this fail-safe (it had none before) is taken out of the store again.
     match checkArmed n mode with
     | some e => (n, .err e)
     | none =>
@@ -650,7 +662,7 @@ def sessOp (cfg : Cfg) (n : Node) (sid : Nat) (mode : Mode) : Op → Node × Sta
           | (n, false) => (n, .err "NoSpace")
           | (n, true) =>
             match storeNets { n with managed := true } with
-            | (n1, false) => ({ n1 with managed := n.managed }, .err "NoSpace")
+            | (n1, false) => (undoAdded { n1 with managed := n.managed } f.idx, .err "NoSpace")
             | (n1, true) =>
               ok { n1 with fs := none, bc := 0, window := none, sessions := removePase n1.sessions none }
   | .rmfab _ idx =>
